@@ -83,7 +83,8 @@ def check_switch_value(w, rep, rule, fn):
                      % (short(got, 200), short(want, 200)), where=W)
 
 
-def check_table(w, rep, rule="C06.table"):
+def check_table(w, rep, rule="C06.table", keys=None, floor=18 + 6):
+    """keys: restrict the per-entry obligations to the table entries a consumer actually reads (C08.table)."""
     sf = w.fe.get(REL)
     fn = w.fe.find_def(REL, "taylor_series_near_zero")
     # defaults
@@ -101,6 +102,8 @@ def check_table(w, rep, rule="C06.table"):
     # every entry: taylor_series_near_zero(u, f) with defaults
     n_ok = 0
     for e in w.series:
+        if keys is not None and e.key not in keys:
+            continue
         c = e.call
         good = len(c.args) == 2 and _is_name(c.args[0], "u") and all(k.arg in ("verbose",) for k in c.keywords)
         if good:
@@ -134,7 +137,7 @@ def check_table(w, rep, rule="C06.table"):
               "SERIES=%s SQUARED_SERIES=%s" % (mod.get("SERIES"), mod.get("SQUARED_SERIES")), where=(REL, 1))
     errs = w.stable.errors
     rep.check(rule, "every table formula is readable as a closed form in x", not errs, "unreadable formulas: %s" % errs, where=(REL, ds.lineno))
-    rep.floor(rule, 18 + 6)
+    rep.floor(rule, floor)
 
 
 def identity_point(w, G, xp):
